@@ -236,7 +236,10 @@ class NetlistSimplifyMixin:
         changed = False
 
         for cpt in self._elements.values():
+            # A component with an explicit initial condition makes the
+            # circuit an initial value problem; it is not removed.
             if (cpt.is_dangling and cpt.name not in skip
+                    and not cpt.has_ic
                     and not self._keep_dangling(cpt, keep_nodes)):
                 if explain:
                     print('Removing dangling component %s' % cpt.name)
@@ -253,6 +256,7 @@ class NetlistSimplifyMixin:
 
         for cpt in self._elements.values():
             if (cpt.is_disconnected and cpt.name not in skip
+                    and not cpt.has_ic
                     and not self._keep_dangling(cpt, keep_nodes)):
                 if explain:
                     print('Removing disconnected component %s' % cpt.name)
